@@ -430,13 +430,32 @@ class C03(ReduceProp):
     thorough_n = 6000
 
     def gen(self, rng, tier, i):
+        deep = i % 4 == 3
         for _ in range(100):
-            c = make_case(rng, chunked=True, nmax=12 if tier == "quick" else 20, mcs=(None, None, 1),
-                          methods=(None, "map-reduce", "map-reduce", "cohorts", "cohorts"))
+            if deep:
+                # order-sensitive reductions through flox's own per-cohort tree: cohorts spanning many blocks, small fan-in
+                c = make_case(rng, chunked=True, nmax=14 if tier == "quick" else 24, mcs=(None,), methods=("cohorts",),
+                              funcs=sorted((ARG | FIRSTLAST) - {"first", "last"}), dtypes=["float64", "float64", "int64"],
+                              streams=["nan", "finite"], engines=["numpy", None], dask_labels_p=0.0)
+                n = len(c.vals)
+                k = rng.randint(1, 3)
+                c.labels = [i2 % k for i2 in range(n)]                        # periodic: every cohort meets every block
+                c.vals = [v if (isinstance(v, float) and v != v) else (float(rng.choice([-1, 2, 2])) if c.dtype.startswith("float")
+                                                                             else rng.choice([-1, 2, 2])) for v in c.vals]
+                c.expected = None if rng.random() < 0.5 else list(range(k))
+                if c.expected is not None and c.fill is None:
+                    c.fill = -7
+                c.expected_kind, c.label_dtype = "array", None
+                c.chunks = gen_chunks(rng, n, rng.choice(["ones", "ones", "random"]))
+                if not legal(c):
+                    continue
+            else:
+                c = make_case(rng, chunked=True, nmax=12 if tier == "quick" else 20, mcs=(None, None, 1),
+                              methods=(None, "map-reduce", "map-reduce", "cohorts", "cohorts"))
             if c.chunks is not None and len(c.chunks) >= 2:
                 break
         nb = len(c.chunks)
-        c.split_every = rng.randint(2, max(2, nb))
+        c.split_every = rng.randint(2, max(2, nb)) if not deep else rng.choice([2, 2, 3, 4])
         c.scheduler = rng.choice(["sync", "threads", f"random:{rng.randrange(10**6)}", f"random:{rng.randrange(10**6)}"])
         return c
 
